@@ -144,6 +144,33 @@ def loop (c : Cfg) (s : Loop) : List Nat → List Tick × End
 def worker (c : Cfg) (start : Nat) (t0 : Int) (ds : List Nat) : List Tick × End :=
   loop c { tNext := t0, now := t0, src := start } ds
 
+/-! ### `clck_links` modified in place while the worker runs
+
+`Transceiver.power_event_handler` (socket thread) appends to / removes from the very list object the
+worker iterates over (`for link in self.clck_links`), between two ticks.  One script element =
+(handler duration of the tick, content of `clck_links` when the tick fires). -/
+
+/-- `while 1:` of `_worker` with the list `clck_links` as it is at each tick -/
+def loopL (c : Cfg) (s : Loop) : List (Nat × List Nat) → List Tick × End
+  | [] =>
+    let p := deadline c s
+    ([], .broke p.2 (s.now + p.2) s.src)
+  | (d, ls) :: ds =>
+    let p := deadline c s
+    let t := s.now + p.2
+    let r := sendClckInd { c with links := ls } s.src
+    match r.next with
+    | .error tag => ([], .raised p.2 t s.src r.sends r.call tag)
+    | .ok src' =>
+      let rest := loopL c { tNext := p.1, now := t + (dur c d : Int), src := src' } ds
+      ({ dt := p.2, time := t, fn := s.src, sends := r.sends, call := r.call } :: rest.1, rest.2)
+
+def workerL (c : Cfg) (start : Nat) (t0 : Int) (sc : List (Nat × List Nat)) : List Tick × End :=
+  loopL c { tNext := t0, now := t0, src := start } sc
+
+/-- a tick without its indications: when it fired, with which frame number, what was called -/
+def Tick.timing (k : Tick) : Int × Int × Nat × Option Nat := (k.dt, k.time, k.fn, k.call)
+
 /-! ### event log (what the harness records, in program order) -/
 
 inductive Event where
